@@ -59,6 +59,14 @@ BUILT = {
    tech="bounded-exhaustive cross product of a configuration grid with every enumerated nondeterminism dimension (repeat in-process, 3 child processes, both progress-bar branches, hand-written loop with recording generator, play-back of the recorded word stream); digests must agree",
    text="Every point of a finite grid (7 derive-macro agent compositions incl. a nested set x {Env, MarketEnv<2>} x seeds x step counts x tick {1,2,5} x step size {100,10^6}) is run by the library runner twice in-process, in three fresh OS processes (progress bar off/on/off), by a hand-written update/step loop around a recording Xoroshiro128**, and by the same loop fed the recorded words back; all complete-output digests must agree and distinct seeds must give distinct outputs. Exhaustive over the grid and the enumerated dimensions, but seeds are an unbounded domain, hence claimed as exploration.",
    note="Not model checking: the seed domain is sampled by a finite list; the check is the uncontrolled-nondeterminism gate the other checks rely on."),
+ "C18": dict(cat="model_checking", engine="pytrace + py/driver.py", ref="§3 C18",
+   tech="exhaustive bounded-depth enumeration of Python call sequences (OrderBook and StepEnv, incl. off-grid prices and out-of-range integers) generated by the Rust side with expected values from the Rust crates; every trace replayed on the freshly built extension under CPython; snapshot exchange both ways",
+   text="Every call sequence to the stated depth over the Python API (place limit/market on- and off-grid, cancel, modify, set_time, toggles, step, out-of-range integers) is executed on the real compiled extension under CPython 3.11; the return value or exception of the last call and every getter afterwards must equal what the Rust core gives for the same sequence (sides True = bid, statuses 0..4); failing calls must leave the object unchanged; StepEnv traces are replayed twice (determinism in the seed); snapshots of all shallow states are exchanged Python->Rust and Rust->Python.",
+   note="One interpreter (python3-vt: CPython 3.11.7, numpy 2.4.6); the extension is imported directly as module `core`."),
+ "C19": dict(cat="model_checking", engine="pytrace + py/driver.py", ref="§3 C19",
+   tech="for every environment state reached by exhaustively enumerated StepEnv call traces (and the same instructions through StepEnvNumpy), all four array methods, both get_market_data dictionaries and both data-frame helpers are compared element by element with the documented index tables",
+   text="Dynamic check (numpy is available in the tooling venv): every state reached by the enumerated traces - overwhelmingly asymmetric books - is observed through StepEnv.level_1_data_array / level_2_data_array, StepEnvNumpy.level_1_data / level_2_data, both get_market_data dictionaries and trades_to_dataframe / orders_to_dataframe; element k must be the documented quantity, lengths 9 and 45, keys exactly the 45 documented names bound to the matching series, columns named after the fields.",
+   note="The documented tables are transcribed once into py/driver.py; pandas is replaced by a minimal stand-in (not installed offline)."),
  "C20": dict(cat="model_checking", engine="c20 (build.rs generated programs)", ref="§3 C20",
    tech="exhaustive enumeration of struct shapes (all field-kind words of length 1..4 over {probe A, probe B, nested derived set} + 14 shapes of 5..8 fields, both derive macros), each compiled into the harness and compared call-by-call and draw-by-draw with the flattened hand-written sequence",
    text="For each generated struct the derived update and the hand-written self.f0.update(env, rng); ... (nested sets flattened) are run on fresh environments with the same seed, twice with a step in between; the probe log (field tag, fingerprint of the environment it was handed, first draw), the final orders and the next generator word must be identical.",
